@@ -1499,6 +1499,26 @@ pub fn stale() -> bool {
     STALE.load(std::sync::atomic::Ordering::Relaxed)
 }
 
+/// Which constructor produces the initial (empty) container of every rebuilt state
+/// (engine flag `--ctor new|default|with_capacity`).
+pub static CTOR: std::sync::atomic::AtomicU8 = std::sync::atomic::AtomicU8::new(0);
+pub fn set_ctor(name: Option<&str>) {
+    let c = match name {
+        Some("default") => 1,
+        Some("with_capacity") => 2,
+        _ => 0,
+    };
+    CTOR.store(c, std::sync::atomic::Ordering::Relaxed);
+}
+#[allow(deprecated)]
+pub fn construct<K, V, const N: usize>() -> Map<K, V, N> {
+    match CTOR.load(std::sync::atomic::Ordering::Relaxed) {
+        1 => Map::default(),
+        2 => Map::with_capacity(N),
+        _ => Map::new(),
+    }
+}
+
 pub struct MapSys<K, V, const N: usize> {
     pub nk: u8,
     pub nv: u8,
@@ -1753,7 +1773,7 @@ impl<K: KeyT, V: ValT, const N: usize> MapSys<K, V, N> {
 
     /// Like `build`, but in the current ledger epoch (objects built earlier stay valid).
     pub fn build_more(&self, path: &[u32], cx: &mut Ctx) -> Built<K, V, N> {
-        let mut bx = Canary::boxed(Map::<K, V, N>::new());
+        let mut bx = Canary::boxed(construct::<K, V, N>());
         let mut model = RefMap::new(N);
         let probes = self.probes();
         let mut leaked = Vec::new();
